@@ -35,6 +35,10 @@ def run(tier, seed, jobs):
              "params": dict(n=2, keys=["a", "b", "c"], maxsize=1, max_inflight=2, max_calls=4)},
             {"mod": MOD, "cls": "CacheModel", "opts": {"pairs": False}, "max_depth": 6,
              "params": dict(n=2, keys=["a", "b"], maxsize=2, ttl=5, max_inflight=2, max_calls=4)},
+            # a hit that yields (always_checkpoint) while another key's call completes and evicts
+            {"mod": MOD, "cls": "CacheModel", "opts": o, "max_depth": 4,
+             "params": dict(n=2, keys=["a", "b"], maxsize=1, max_inflight=2, max_calls=4,
+                            always_checkpoint=True)},
             # expiry racing with a second caller while the first one sits in its checkpoint
             {"mod": MOD, "cls": "CacheModel", "opts": o, "max_depth": 4,
              "params": dict(n=2, keys=["a"], maxsize=2, ttl=5, max_inflight=2, max_calls=4,
